@@ -570,6 +570,20 @@ def clause6_unique(ctx, P):
            "'the caller sent no id', the request is routed and the caller never gets an answer", witness=badv.witness() if badv else None)
 
 
+def clause7_nesting(ctx, P):
+    """a value, argument list or result is relayed as it was given - whatever fits into a message must get through the parser on both
+    legs.  The bundled parser refuses nesting beyond CJSON_NESTING_LIMIT (and the refused message costs its sender the connection:
+    the owner of the state, say); `[[[...]]]` needs two bytes per level, so the limit must not be below half the message size of the
+    analysed configuration"""
+    lim = Q.macro(P, "cJSON.c", "CJSON_NESTING_LIMIT")
+    size = Q.enum(P, "CONFIG_MAX_MESSAGE_SIZE")
+    if lim is None or size is None:
+        raise AnalysisBroken("CJSON_NESTING_LIMIT / CONFIG_MAX_MESSAGE_SIZE not found (%s, %s)" % (lim, size))
+    ctx.ob("C03.5 R-BOUND", P.fn("parse.c:parse_message"), "nesting-limit-admits-every-message", lim >= size // 2,
+           "CJSON_NESTING_LIMIT is %d, a message of %d bytes can nest %d deep: a legal value or result that is nested deeper is not "
+           "relayed, its sender (the owner answering a routed request) is disconnected" % (lim, size, size // 2))
+
+
 def run(ctx):
     for cfg in ctx.configs(["default"] if ctx.tier == "quick" else None):
         P, cg = cfg.P, cfg.cg
@@ -581,6 +595,7 @@ def run(ctx):
         clause4_route(ctx, P)
         clause5_payload(ctx, P)
         clause6_unique(ctx, P)
+        clause7_nesting(ctx, P)
         # how an owner's answer is recognised and which member is relayed (shared with C02.3)
         from .c02 import clause3_responses
         clause3_responses(ctx, P)
